@@ -20,7 +20,7 @@ Report(S, line) == IF S = {} THEN TRUE
 
 TraceInit == l = 1 /\ bad = {}
 TImport == /\ l <= Len(Trace) /\ Trace[l].ev = "Import" /\ l' = l + 1
-           /\ LET b == Clauses(Trace[l]) IN bad' = bad \cup b /\ Report(b \ bad, l)
+           /\ LET b == Clauses(Trace[l]) IN bad' = bad \cup b /\ Report(b, l)
 TOther == l <= Len(Trace) /\ Trace[l].ev # "Import" /\ l' = l + 1 /\ UNCHANGED bad
 TraceNext == TImport \/ TOther
 TraceAccepted ==
